@@ -6,7 +6,7 @@ ALL = ['C%02d' % i for i in range(1, 21)]
 
 CLAIMED = {
  'C01': dict(level='proof',
-   text='Static proof, over all paths of the MIR of the current tree, of structural clauses of C01: (SR-1) the three mode wrappers restore every scoring field they overwrite on every return and hand the documented mode constants to the core routine, which never writes scoring; (RI-1) in the core routine the first mention of every reused scratch buffer (I/D/S columns, Lx, Ly, Sn, traceback dimensions) on every path is a reset; (TB-1) the diagonal move is labelled TB_MATCH exactly on the edge x[i-1] == y[j-1] and TB_SUBST on the other, and every arm of the traceback match pushes the operation of its move code; (TB-1b) in the fix-up passes after the main DP every raise of a score cell is paired with the corresponding set_*_bits on the stored traceback cell, so path and score cannot diverge there. Optimality of the recurrence, clip bookkeeping and coordinates are values of a DP over runtime data and are NOT decided.',
+   text='Static proof, over all paths of the MIR of the current tree, of structural clauses of C01: (SR-1) the three mode wrappers restore every scoring field they overwrite on every return and hand the documented mode constants to the core routine, which never writes scoring; (RI-1) in the core routine the first mention of every reused scratch buffer (I/D/S columns, Lx, Ly, Sn, traceback dimensions) on every path is a reset; (TB-1) the diagonal move is labelled TB_MATCH exactly on the edge x[i-1] == y[j-1] and TB_SUBST on the other, and every arm of the traceback match pushes the operation of its move code; (TB-1b) in the fix-up passes after the main DP every raise of a score cell is paired with the corresponding set_*_bits on the stored traceback cell, so path and score cannot diverge there; (AO-1) every call of the substitution function in the DP receives a symbol derived from x first and one derived from y second (data provenance), so asymmetric matrices are not applied transposed. Optimality of the recurrence, clip bookkeeping and coordinates are values of a DP over runtime data and are NOT decided.',
    note='Trusted: rustc MIR construction, the fact extractor, the abstract interpreters (SR, RI). Assumes Vec::clear empties '
         'the vector, that capacity does not influence results, and that foreign callees only write through the &mut '
         'arguments they are given. Behaviour of the DP itself is outside the claim.',
@@ -14,12 +14,12 @@ CLAIMED = {
    ref='DESIGN.md section 2, C01'),
 
  'C02': dict(level='proof',
-   text='Static proof over all MIR paths of structural clauses of C02: (SR-2) the four banded mode wrappers restore every scoring field and pass the documented mode constants; no custom* entry point writes scoring; (TS-1) the private compute_alignment is reached only from entry points in which a store self.band = Band::create*(..) dominates the call, and every Band::create* returns a band built by Band::new(len x, len y) in that call; (RI-2) first mention of every scratch buffer incl. the traceback matrix is a reset; (GD-1) the over-budget edge of num_cells > MAX_CELLS returns the MIN_SCORE/empty sentinel and all DP state is touched only behind the other edge; (TB-1, TB-1b) operation labelling and score/traceback co-update as in C01. Soundness of in-band DP, equality with the unbanded optimum and termination are NOT decided (two termination/score defects on empty sequences were found by running the code and repaired, see known_findings.txt).',
+   text='Static proof over all MIR paths of structural clauses of C02: (SR-2) the four banded mode wrappers restore every scoring field and pass the documented mode constants; no custom* entry point writes scoring; (TS-1) the private compute_alignment is reached only from entry points in which a store self.band = Band::create*(..) dominates the call, and every Band::create* returns a band built by Band::new(len x, len y) in that call; (RI-2) first mention of every scratch buffer incl. the traceback matrix is a reset; (GD-1) the over-budget edge of num_cells > MAX_CELLS returns the MIN_SCORE/empty sentinel and all DP state is touched only behind the other edge; (TB-1, TB-1b, AO-1) operation labelling, score/traceback co-update and argument order of the substitution function as in C01. Soundness of in-band DP, equality with the unbanded optimum and termination are NOT decided (two termination/score defects on empty sequences were found by running the code and repaired, see known_findings.txt).',
    note='Trusted: rustc MIR, extractor, SR/RI/GD engines; Vec::clear semantics; foreign callees write only through &mut arguments.',
    technique='static analysis: abstract interpretation + dominance/typestate rules over rustc MIR',
    ref='DESIGN.md section 2, C02'),
  'C16': dict(level='proof',
-   text='Static proof of graph-monotonicity, freshness and mode clauses of C16: (EF-5) every call in alignment::poa receiving &mut Graph is add_node, add_edge with a positive constant weight, or edge_weight_mut used only as *w += const; the graph field is never reassigned; (TS-7) per operation at most one add_node, labelled seq[i], followed on every path by i += 1; (EF-7) endpoints of add_edge are created in the call, named by the alignment operation, or the head - never a graph-query result (necessary for acyclicity); (SR-3) the three mode wrappers restore the clip penalties and pass the documented constants to the core routine; (EF-6) every Poa routine returning a Traceback builds it fresh, takes &self, and the Aligner passes no state of an earlier alignment to it. Score equality with Needleman-Wunsch and consensus validity are NOT decided.',
+   text='Static proof of graph-monotonicity, freshness and mode clauses of C16: (EF-5) every call in alignment::poa receiving &mut Graph is add_node, add_edge with a positive constant weight, or edge_weight_mut used only as *w += const; the graph field is never reassigned; (TS-7) per operation at most one add_node, labelled seq[i], followed on every path by i += 1; (EF-7) endpoints of add_edge are created in the call, named by the alignment operation, or the head - never a graph-query result, the head comes from the topological order and no node is addressed by a constant index (necessary for acyclicity); (SR-3) the three mode wrappers restore the clip penalties and pass the documented constants to the core routine; (EF-6) every Poa routine returning a Traceback builds it fresh, takes &self, and the Aligner passes no state of an earlier alignment to it. Score equality with Needleman-Wunsch and consensus validity are NOT decided.',
    note='Trusted: rustc MIR, extractor, engines; petgraph API contracts for add_node/add_edge/edge_weight_mut (they do not remove or relabel).',
    technique='static analysis: who-may-call/effect rule on &mut Graph receivers, path counting on the loop CFG, symbolic save/restore',
    ref='DESIGN.md section 2, C16'),
@@ -42,7 +42,7 @@ CLAIMED = {
         'probabilistic components of the Model interface (initial, transition, observation, end) - this found that viterbi '
         'ignored end_prob (likelihood < Viterbi probability for models with end probabilities), fixed in /repo; (SB-4) within every '
         'Model impl the four accessors read pairwise distinct parameter tables and index them with the method parameters in '
-        'declaration order; (OR-1) in viterbi no end_prob is applied after the arg-max/traceback has been taken (the reported path must be optimal for the reported score); (GD-8b) LogProb::ln_sum_exp drops a term only for being the maximum or exact ln(0). Equality with the path-sum/path-max definition and NaN freedom are NOT decided.',
+        'declaration order; (OR-1) in viterbi no end_prob is applied after the arg-max/traceback has been taken (the reported path must be optimal for the reported score); (GD-8b) LogProb::ln_sum_exp drops a term only for being the maximum or exact ln(0); (PO-8) every panic obligation (unwrap, indexing, index arithmetic) of viterbi/forward/backward and their closures is discharged or audited for T >= 1, S >= 1 - impossible sequences must give probability zero, not a panic. Equality with the path-sum/path-max definition and NaN freedom are NOT decided.',
    note='Trusted: rustc MIR, extractor, call graph incl. closures. A component that is called but combined wrongly is not detected.',
    technique='static analysis: sibling/interface-coverage rule over the call graph of type-checked MIR',
    ref='DESIGN.md section 2, C14'),
@@ -71,10 +71,10 @@ CLAIMED = {
    text='Static proof over all MIR paths of the structural invariants the overlap queries rest on: (TS-2) in Node::{insert,repair,'
         'rotate_left,rotate_right} every node object is refreshed by update_height and update_max after its last structural '
         'change before it is returned or linked into the tree, and both refresh functions consult both children; (TS-3) repair '
-        'post-dominates the child update in insert, the balanced-case guard is |left_h - right_h| <= 1 and the other edge always '
-        'rotates self; (SB-1) the shared and mutable iterators prune with the same three predicates and intersect is the four '
+        'post-dominates the child update in insert, the balanced-case guard is |left_h - right_h| <= 1, the other edge always '
+        'rotates self and the inner (double) rotation is decided by a strict comparison of the two grandchild heights; (SB-1) the shared and mutable iterators prune with the same three predicates and intersect is the four '
         'half-open comparisons; (TS-4) array-backed tree: mutation clears `indexed`, index = sort; index_core; true, find_into '
-        'reads the index only behind the refusing guard; (SG-1) no public API hands out &mut to a key/node; (SB-8) AnnotMap insert '
+        'reads the index only behind the refusing guard and clears the caller-supplied result vector on every returning path; (SG-1) no public API hands out &mut to a key/node; (SB-8) AnnotMap insert '
         'and find key by refid and build the same interval. Correctness of the pruning predicates for every tree shape and of '
         'the implicit-tree index arithmetic is NOT decided.',
    note='Trusted: rustc MIR, extractor, points-to/effect engine (flow-insensitive, conservative for call results), typestate engine. '
@@ -86,7 +86,7 @@ CLAIMED = {
    text='One table clause decided exactly: (TB-2) the symbol order literal iterated by FMDIndex::backward_ext equals the '
         'complements (reconstructed from the dna::COMPLEMENT initialiser) of the index alphabet (literal of dna::n_alphabet plus '
         'the sentinel inserted and asserted in FMDIndex::from) in ascending byte order, and forward_ext is the swapped backward '
-        'extension by the complement symbol. Supermaximality and interval/occurrence exactness are NOT decided.',
+        'extension by the complement symbol (checked structurally on the interval literals); SB-10 of C04 (sampled Occ table) is part of this check. Supermaximality and interval/occurrence exactness are NOT decided.',
    note='Trusted: rustc MIR constants (byte-string literals), extractor, table reconstruction of C20/TB-6.',
    technique='static analysis: literal/constant table agreement extracted from type-checked MIR',
    ref='DESIGN.md section 2, C06'),
@@ -119,17 +119,17 @@ CLAIMED = {
    ref='DESIGN.md section 2, C20'),
 
  'C03': dict(level='other',
-   text='Clauses decided: (SB-7) writer/reader agreement of the sampled suffix array - sample() stores row i exactly on i % rate == 0 with rate kept in field s and inserts extra_rows[i] for unsampled sentinel rows; get() reads sample[pos / s] exactly on pos % s == 0 and extra_rows[&pos] under the mirrored condition, behind index < len; (NF-1) no count that went through an int->f32->int round trip is used as a bound/length/index in sample(); (SB-5s) the LCP storage SmallInts uses the same strict small/big threshold in push, set and real_value. Sortedness of the suffix array, sentinel ordering, LCP and shortest-unique-substring values and the LF-walk arithmetic are NOT decided.',
+   text='Clauses decided: (SB-7) writer/reader agreement of the sampled suffix array - sample() stores row i exactly on i % rate == 0 with rate kept in field s and inserts extra_rows[i] for unsampled sentinel rows; get() reads sample[pos / s] exactly on pos % s == 0 and extra_rows[&pos] under the mirrored condition, behind index < len; (NF-1) no count that went through an int->f32->int round trip is used as a bound/length/index in sample(); (SB-5s) the LCP storage SmallInts uses the same strict small/big threshold in push, set and real_value; (NC-1) every value-changing integer cast in the suffix-array module (narrowing, signed/unsigned) is discharged by interval analysis or is one of two audited conversions, so a truncated sentinel count or rank is reported. Sortedness of the suffix array, sentinel ordering, LCP and shortest-unique-substring values and the LF-walk arithmetic are NOT decided.',
    note='Trusted: rustc MIR, extractor, guard normalisation.',
    technique='static analysis: writer/reader guard agreement (normalised comparisons + dominance) over rustc MIR',
    ref='DESIGN.md section 2, C03'),
  'C09': dict(level='proof',
-   text='Clauses proved on the MIR: (RI-3) Ukkonen::find_all_end clears and refills both reused DP columns on every path before the iterator is built, Matches::next never resizes them; (EF-2) for both instantiations of impl_myers! distance/find_all_end/find_best_end take &self and the Myers types cannot hold interior mutability; (PO-5) every panic / overflow obligation of the block-based column update (long::States::{new,add_state,step}, advance_block, ceil_div, word_size) is discharged or audited - this found max_dist + w overflowing for the usize::MAX that distance()/find_best_end() pass (wrong distances in release builds), repaired in /repo. That reported distances equal the edit-distance definition (bit-vector arithmetic, block activation logic, delegated crates) is NOT decided.',
+   text='Clauses proved on the MIR: (RI-3) Ukkonen::find_all_end clears and refills both reused DP columns on every path before the iterator is built, Matches::next never resizes them; (EF-2) for both instantiations of impl_myers! distance/find_all_end/find_best_end take &self and the Myers types cannot hold interior mutability; (PO-5) every panic / overflow obligation of the block-based column update (long::States::{new,add_state,step}, advance_block, ceil_div, word_size) is discharged or audited - this found max_dist + w overflowing for the usize::MAX that distance()/find_best_end() pass (wrong distances in release builds), repaired in /repo; (SB-11) both Myers constructors set a pattern symbol's own bit on every iteration of the per-symbol loop, whatever the ambiguity table contains. That reported distances equal the edit-distance definition (bit-vector arithmetic, block activation logic, delegated crates) is NOT decided.',
    note='Trusted: rustc MIR, extractor, RI engine; Vec::clear semantics.',
    technique='static analysis: must-reset dataflow and receiver/Freeze effect analysis over rustc MIR',
    ref='DESIGN.md section 2, C09'),
  'C10': dict(level='proof',
-   text='Refusal, reset and independence clauses proved on the MIR: (GD-2) Traceback::traceback_at reaches _traceback_at only on pos + 2 <= self.pos, else None; (EF-3) the four lazy *_at queries of both instantiations reach the traceback only through that guarded entry; (EF-8) they read no field that next() mutates other than the stored columns, so answers for searched ends do not depend on the search cursor; (GD-3) FullMatches::{start,path_reverse,alignment} run the traceback only when unsuccessfully_finished is false; (TS-5) both Matches constructors pass the state store through Traceback::new, which resizes it on both branches, then writes the sentinel column, then the first state; Traceback is constructed nowhere else; (TB-9) Subst/Ins/Del/Match each behind their own test. Validity of paths, ring-buffer wrap-around and equality of block-based and single-word alignments are NOT decided.',
+   text='Refusal, reset and independence clauses proved on the MIR: (GD-2) Traceback::traceback_at reaches _traceback_at only on an edge equivalent (as polynomials) to pos + 2 <= self.pos, else None; (PO-7) the arithmetic on the caller-supplied end position cannot panic or wrap - this found hit_at(usize::MAX) being answered from stale columns in release builds, repaired in /repo; (EF-3) the four lazy *_at queries of both instantiations reach the traceback only through that guarded entry; (EF-8) they read no field that next() mutates other than the stored columns, so answers for searched ends do not depend on the search cursor; (GD-3) FullMatches::{start,path_reverse,alignment} run the traceback only when unsuccessfully_finished is false; (TS-5) both Matches constructors pass the state store through Traceback::new, which resizes it on both branches, then writes the sentinel column, then the first state; Traceback is constructed nowhere else; (TB-9) Subst/Ins/Del/Match each behind their own test. Validity of paths, ring-buffer wrap-around and equality of block-based and single-word alignments are NOT decided.',
    note='Trusted: rustc MIR, extractor, call graph; impl_myers! is analysed in both instantiations (simple, long).',
    technique='static analysis: guard dominance, who-may-call over the call graph, must-pass-through ordering over rustc MIR',
    ref='DESIGN.md section 2, C10'),
@@ -146,7 +146,7 @@ CLAIMED = {
    ref='DESIGN.md section 2, C12'),
 
  'C04': dict(level='other',
-   text='Clauses decided: (SB-10) writer/reader agreement of the sampled Occ table - Occ::new pushes a checkpoint for row i exactly when i % k == 0, after counting bwt[i], with k the stored field; Occ::get combines checkpoint r / k with a byte count over (q*k, r] (added) and, in the k > 64 look-ahead branch, checkpoint q + 1 with a count over (r, (q+1)*k] (subtracted); ranges and checkpoint indices are compared as polynomials in r, k and q = r / k, so algebraic rewrites are accepted and off-by-one changes are not; (GD-9) bwt() takes text[p-1] on p > 0 and text[n-1] otherwise; (EF-9) bwtfind is built by the stable counting sort, no unstable sort is reachable from it. Exactness of less/prescan, invert_bwt and of the counts themselves over all texts is NOT decided.',
+   text='Clauses decided: (SB-10) writer/reader agreement of the sampled Occ table - Occ::new pushes a checkpoint for row i exactly when i % k == 0, after counting bwt[i], with k the stored field; Occ::get combines checkpoint r / k with a byte count over (q*k, r] (added) and, in the k > 64 look-ahead branch, checkpoint q + 1 with a count over (r, (q+1)*k] (subtracted); ranges and checkpoint indices are compared as polynomials in r, k and q = r / k, so algebraic rewrites are accepted and off-by-one changes are not; (GD-9) bwt() takes text[p-1] on p > 0 and text[n-1] otherwise; (EF-9) bwtfind is built by the stable counting sort, no unstable sort is reachable from it; (PS-1) less() applies its prefix sum to the whole table it returns. Exactness of less/prescan, invert_bwt and of the counts themselves over all texts is NOT decided.',
    note='Trusted: rustc MIR, extractor, expression reconstruction and the polynomial normaliser (rules/poly.py); bytecount::count counts occurrences in the given slice.',
    technique='static analysis: writer/reader agreement with symbolic (polynomial) normalisation of index arithmetic over rustc MIR',
    ref='DESIGN.md section 2, C04'),
@@ -157,7 +157,7 @@ CLAIMED = {
         'before the LF step; l := less(a) + (occ(l - 1, a) on the edge l > 0, else 0) and r := less(a) + occ(r, a) - 1, compared as '
         'polynomials so algebraic rewrites are accepted; an empty interval (l > r) clears the complete flag and leaves the loop '
         'without counting the symbol, otherwise matched += 1; the result is Complete{l, r + 1} / Partial({pl, pr + 1}, matched) / '
-        'Absent selected by (matched > 0, complete); the search loop iterates exactly pattern.iter().rev() (no take/skip/step adapters); Interval::occ enumerates exactly lower..upper through the suffix array; the sampled suffix array that resolves positions satisfies SB-7 of C03 incl. sentinel taken from the text. '
+        'Absent selected by (matched > 0, complete); (LF-2) every way of giving up inside the loop is dominated by the save of the current interval; (SB-10 of C04) the sampled Occ table the interval arithmetic rests on is read as it is written; the search loop iterates exactly pattern.iter().rev() (no take/skip/step adapters); Interval::occ enumerates exactly lower..upper through the suffix array; the sampled suffix array that resolves positions satisfies SB-7 of C03 incl. sentinel taken from the text. '
         'Exactness of the interval for every text/pattern (which rests on Occ/less being exact) is NOT decided; the ownership clause '
         '(owned/borrowed/Arc components) holds by parametricity of the single blanket impl.',
    note='Trusted: rustc MIR, extractor, expression reconstruction and polynomial normaliser.',
